@@ -29,15 +29,24 @@ Vectors(p) ==
         none == [out |-> <<>>, m |-> [bad |-> TRUE, hard |-> TRUE]]
         ens == IF WithNoSimp THEN EngineRunNoSimp(sp) ELSE none
         eno == IF WithNoSimp THEN EngineRunNoSimp(op) ELSE none
-    IN (IF rs.hard THEN <<>>
+        tp == Cat(TwinSrc(d), Cat(Prefix(Family), p))
+        rt == Run(tp)
+        et == EngineRun(tp)
+    IN (\* two identical inputs: "no construct re-orders work because of stacks it saw earlier" -- where the
+        \* outermost construct takes its inputs one at a time, the second half repeats the first
+        IF rt.hard \/ d > 3 THEN <<>>
+        ELSE <<[ast |-> tp, den |-> rt.out, lo |-> rt.lo, hi |-> rt.hi, ordered |-> FALSE, kind |-> "twin", posfixed |-> PosFixed(p),
+                periodic |-> OneAtATime(p), eng |-> NormOut(et.out), engok |-> ~(et.m.bad \/ et.m.hard)]>>)
+       \o
+       (IF rs.hard THEN <<>>
         ELSE <<[ast |-> sp, den |-> rs.out, lo |-> rs.lo, hi |-> rs.hi, ordered |-> FALSE,
-                kind |-> "stream", eng |-> NormOut(es.out), engok |-> ~(es.m.bad \/ es.m.hard),
+                kind |-> "stream", posfixed |-> PosFixed(p), eng |-> NormOut(es.out), engok |-> ~(es.m.bad \/ es.m.hard),
                 engns |-> NormOut(ens.out), engnsok |-> ~(ens.m.bad \/ ens.m.hard),
                 tree |-> TreeOf(sp), stree |-> Simplify(TreeOf(sp))]>>)
        \o
        (IF ro.hard THEN <<>>
         ELSE <<[ast |-> op, den |-> ro.out, lo |-> ro.lo, hi |-> ro.hi,
-                ordered |-> OrderFixed(p), kind |-> "single", eng |-> NormOut(eo.out),
+                ordered |-> OrderFixed(p), kind |-> "single", posfixed |-> PosFixed(p), eng |-> NormOut(eo.out),
                 engok |-> ~(eo.m.bad \/ eo.m.hard),
                 engns |-> NormOut(eno.out), engnsok |-> ~(eno.m.bad \/ eno.m.hard),
                 tree |-> TreeOf(op), stree |-> Simplify(TreeOf(op))]>>)
